@@ -45,6 +45,9 @@ func commit(rootGoitPath string, index *store.Index, head *store.Head, conf *sto
 	var data []byte
 	branchPath := filepath.Join(rootGoitPath, "refs", "heads", head.Reference)
 	branchBytes, err := os.ReadFile(branchPath)
+	if err != nil && !os.IsNotExist(err) {
+		return fmt.Errorf("%w: %s", ErrIOHandling, branchPath)
+	}
 	author := object.NewSign(conf.GetUserName(), conf.GetEmail())
 	committer := author
 	if err != nil {
